@@ -333,9 +333,11 @@ func init() {
 		Level:     "exploration",
 		Technique: "exhaustive enumeration of command x connection kind x work type x token through the real RunControlSession/Workceptor with recording in-process work units; decision compared with the statement",
 		Rule: "5 commands x {unix, tcp, mesh address} x {verifying, non-verifying, remote with/without signing, unknown} x 20 tokens (absent, empty, garbage, valid RS512, valid RS256, expired, other audience, several audiences incl. this node, other key, alg none, HS256 keyed with the public key PEM, truncated, payload swapped under a valid signature, no exp, not-before in the future, no audience claim, empty audience list, blank audience, audiences that extend / shorten / upper-case the node ID). " +
-			"submit additionally with the signwork field absent, \"true\" or \"false\" (it asks for relayed work to be signed and must not influence whether the submission itself is verified). Every combination is a distinct case; all are non-trivial. Effect = unit created / Cancel or Release reached the unit / unit removed / result stream started.",
+			"submit additionally with the signwork field absent, \"true\" or \"false\" (it asks for relayed work to be signed and must not influence whether the submission itself is verified). Tokens the node creates itself: a real daemon (signing key, token lifetime 3 s) relays every sequence of <=2 (and those of 3 ending in a signed one; thorough: all of 3) submissions from {signed, signed with ttl=1h, unsigned} to a recording stand-in for the control service on a real second node: each token verifies with the configured key, names the target node, and expires within the configured lifetime. Every combination is a distinct case; all are non-trivial. Effect = unit created / Cancel or Release reached the unit / unit removed / result stream started.",
 		Assumptions: []string{"a token without exp is left open by the statement (either outcome accepted)", "a submit names the verifying type by its local registration"},
 		Run:         runC15,
-		CaseTimeout: 60 * time.Second,
+		Exec:        execC15,
+		Coord:       coordC15,
+		CaseTimeout: 90 * time.Second,
 	})
 }
